@@ -201,9 +201,11 @@ theorem muggle_evloop_add_ctx_c18 (f : Sched) (e : EvLoop) (h : Heap) (he : e.wf
     OpContract EvLoop.wf EvLoop.ownedMem EvLoop.ownedFds e h (evloopAdd f e h) :=
   evloopAdd_contract f e h he
 
-/-- `muggle_socket_evloop_add_ctx` (with the fix: reports whether the context was queued) -/
+/-- `muggle_socket_evloop_add_ctx` of a context made by the caller (one block, one descriptor):
+queued → the handle owns node, block and descriptor (and `muggle_socket_evloop_handle_destroy`
+releases them); not queued → reported, handle unchanged, the caller releases its context -/
 theorem muggle_socket_evloop_add_ctx_c18 (f : Sched) (s : SockH) (h : Heap) (hs : s.wf) :
-    OpContractS SockH.wf SockH.owned zeroFd s h (sockhAddCtx f s h) :=
+    OpContractS SockH.wf SockH.owned SockH.ownedFd s h (sockhAddCtx f s h) :=
   sockhAddCtx_contract f s h hs
 
 /-- `muggle_async_logger_log` (void): never `Err`, live counts unchanged under every schedule -/
